@@ -110,8 +110,14 @@ package mux
 //@     assert[C14] arg2 == name("", "") && r.offset == 0 && len(r.buf) == 2
 
 // unhandled IQs: nothing is written for result and error IQs
+// (C07) the fallback reply is an error IQ with the request's id, addressed to
+// the sender the request named and from the address it was sent to
 //@ func iqFallback
+//@   noswallow[C07]
 //@   ghost wrote bool = false
+//@   callsite (mellium.im/xmpp/stanza.IQ).Wrap#1
+//@     assert[C07] arg0.ID == iq.ID && arg0.Type == "error" && arg0.To == iq.From && arg0.From == iq.To
+//@     assert[C07] iq.Type != "result" && iq.Type != "error"
 //@   callsite mellium.im/xmlstream.Copy#1
 //@     after: wrote = true
 //@   ensures[C14] (iq.Type == "result" || iq.Type == "error") ==> result == nil && !wrote
